@@ -352,6 +352,7 @@ func (e *Eval) instr(fr *Frame, in ssa.Instruction, st *State, cur string) (stri
 			binds = append(binds, e.val(fr, b))
 		}
 		fr.vals[x] = Val{Clo: &Closure{Fn: x.Fn.(*ssa.Function), Binds: binds}}
+		e.atClosure(fr, x, binds, st, cur)
 	case *ssa.Phi:
 		c.Unsupported("phi not at block start in %s", fr.fn)
 	case *ssa.Call:
